@@ -133,6 +133,8 @@ type c07Case struct {
 	FilterPost bool   `json:"filter_post"`
 	CustomErr  bool   `json:"custom_error_handler"`
 	CustomRec  bool   `json:"custom_recover_handler"`
+	Status     int    `json:"status"`  // explicit status written by the handler first (0: none)
+	Forward    bool   `json:"forward"` // the addressed route hands its Response to a nested Dispatch for the real route
 }
 
 var (
@@ -168,7 +170,7 @@ func valid07(k *c07Case) bool {
 
 func c07(ctx *core.Ctx) {
 	quietLogs()
-	ctx.Rule("matrix: entry {ServeHTTP, Dispatch, Handle, HandleWithFilter} x container switch x route override {unset, off, on} x Accept-Encoding (12 values) x pre-set Content-Encoding x provider {sync.Pool, bounded 0/1/4, custom non-pooling, custom recycling-on-release} x outcome {ok, 404, 405, 406, 415, panic before output, panic after partial output} x writer already a CompressingResponseWriter x payload {0, 1, 100, 70000 (1 MB thorough)} in random chunks across a container filter (before/after) and the handler; custom or default error/recover writers. quick: seeded random sample of cells; thorough: the full product of the switch dimensions, forty payload/chunkings per cell. Oracle per response: applied coding => label in {gzip,deflate}, Accept-Encoding mentions it, encoding enabled for the request, complete-stream decode == logged bytes; else body == logged bytes and no Content-Encoding added. Non-trivial = a response with a non-empty body or an applied coding; distinct by the switch cell (entry, cont, route, AE, preset, outcome, prewrapped, applied).")
+	ctx.Rule("matrix: entry {ServeHTTP, Dispatch, Handle, HandleWithFilter} x container switch x route override {unset, off, on} x Accept-Encoding (12 values) x pre-set Content-Encoding x provider {sync.Pool, bounded 0/1/4, custom non-pooling, custom recycling-on-release} x outcome {ok, 404, 405, 406, 415, panic before output, panic after partial output} x writer already a CompressingResponseWriter x payload {0, 1, 100, 70000 (1 MB thorough)} in random chunks across a container filter (before/after) and the handler, explicit handler statuses {none, 200, 201, 206, 404, 500}, forwarding handlers (Response handed to a nested Dispatch before anything is written); custom or default error/recover writers. quick: seeded random sample of cells; thorough: the full product of the switch dimensions, forty payload/chunkings per cell. Oracle per response: applied coding => label in {gzip,deflate}, Accept-Encoding mentions it, encoding enabled for the request, complete-stream decode == logged bytes; else body == logged bytes and no Content-Encoding added. Non-trivial = a response with a non-empty body or an applied coding; distinct by the switch cell (entry, cont, route, AE, preset, outcome, prewrapped, applied).")
 	ctx.Assume("the property does not demand that a coding is applied when enabled; evidence reports how many responses were encoded",
 		"with the default recover handler the stack text is not predictable: prefix and stream completeness are judged")
 	defer restful.SetCompressorProvider(restful.NewSyncPoolCompessors())
@@ -244,6 +246,11 @@ func c07(ctx *core.Ctx) {
 			left -= c
 		}
 		k.FilterPre, k.FilterPost = r.Chance(1, 3), r.Chance(1, 3)
+		k.Status = []int{0, 0, 200, 201, 206, 404, 500}[r.Intn(7)]
+		k.Forward = (k.Entry == "ServeHTTP" || k.Entry == "Dispatch") && r.Chance(1, 6)
+		if k.FilterPre {
+			k.Status = 0 // the filter has already sent the status line
+		}
 		k.CustomErr, k.CustomRec = r.Chance(1, 2), r.Chance(2, 3)
 		if ci%97 == 0 || ctx.OnlyCase >= 0 {
 			ctx.Case(ci, core.JSON(k))
@@ -261,6 +268,7 @@ func c07(ctx *core.Ctx) {
 }
 
 type c07Obs struct {
+	LenErr   error
 	Status   int
 	Header   http.Header
 	Body     []byte
@@ -324,6 +332,9 @@ func runC07(k *c07Case, seed uint64, ae string) (*c07Obs, []byte) {
 	}
 	ws := new(restful.WebService).Path("/e")
 	okRoute := ws.GET("/ok").To(func(req *restful.Request, resp *restful.Response) {
+		if k.Status != 0 && k.Outcome == "ok" {
+			resp.WriteHeader(k.Status)
+		}
 		switch k.Outcome {
 		case "panic-before":
 			panic(&c07Panic{log: wlogOf(req.Request), text: "boom"})
@@ -333,9 +344,18 @@ func runC07(k *c07Case, seed uint64, ae string) (*c07Obs, []byte) {
 			writeChunks(resp, req.Request, -1)
 		}
 	})
+	fwdRoute := ws.GET("/fwd").To(func(req *restful.Request, resp *restful.Response) {
+		// a forwarding handler: nothing written yet, the Response goes into a nested Dispatch for the real route
+		r2 := req.Request.Clone(req.Request.Context())
+		u := *req.Request.URL
+		u.Path = "/e/ok"
+		r2.URL = &u
+		r2.RequestURI = "/e/ok"
+		c.Dispatch(resp, r2)
+	})
 	jsonRoute := ws.GET("/json").Produces(restful.MIME_JSON).To(func(req *restful.Request, resp *restful.Response) {})
 	postRoute := ws.POST("/post").Consumes(restful.MIME_JSON).To(func(req *restful.Request, resp *restful.Response) {})
-	for _, rb := range []*restful.RouteBuilder{okRoute, jsonRoute, postRoute} {
+	for _, rb := range []*restful.RouteBuilder{okRoute, fwdRoute, jsonRoute, postRoute} {
 		switch k.Route {
 		case "off":
 			rb.ContentEncodingEnabled(false)
@@ -350,6 +370,9 @@ func runC07(k *c07Case, seed uint64, ae string) (*c07Obs, []byte) {
 	c.HandleWithFilter("/hf/", plain)
 
 	req := rt.Req{Method: "GET", Path: "/e/ok", Hdr: map[string]string{}}
+	if k.Forward && k.Outcome == "ok" {
+		req.Path = "/e/fwd"
+	}
 	switch k.Outcome {
 	case "404":
 		req.Path = "/e/missing"
@@ -395,7 +418,8 @@ func runC07(k *c07Case, seed uint64, ae string) (*c07Obs, []byte) {
 	if outer != nil {
 		outer.Close()
 	}
-	obs.Status, obs.Header, obs.Body = rec.Code(), rec.Hdr(), rec.Body.Bytes()
+	obs.Status, obs.Header = rec.Code(), rec.Hdr()
+	obs.Body, obs.LenErr = rec.ClientBody()
 	return obs, l.b.Bytes()
 }
 
@@ -417,6 +441,10 @@ func judgeC07(ctx *core.Ctx, ci int, k *c07Case, obs *c07Obs, logged []byte) {
 	doc := map[string]interface{}{"case": k, "status": obs.Status, "content_encoding": obs.Header["Content-Encoding"], "body_len": len(obs.Body), "logged_len": len(logged)}
 	if obs.Panic != nil {
 		ctx.Violation(ci, "c07:panic-escaped:"+cell, fmt.Sprintf("panic escaped although recovery is on: %v", obs.Panic), doc)
+		return
+	}
+	if obs.LenErr != nil {
+		ctx.Violation(ci, "c07:content-length:"+cell+":outcome="+k.Outcome, obs.LenErr.Error(), doc)
 		return
 	}
 	ces := obs.Header["Content-Encoding"]
@@ -498,6 +526,9 @@ func judgeC07(ctx *core.Ctx, ci int, k *c07Case, obs *c07Obs, logged []byte) {
 		}
 		ctx.Violation(ci, "c07:"+cls+":"+cell+":outcome="+k.Outcome, fmt.Sprintf("client sees %d bytes (%.40q...), written were %d bytes (%.40q...)", len(plain), plain, len(expectBody), expectBody), doc)
 		return
+	}
+	if k.Outcome == "ok" && (k.Entry == "ServeHTTP" || k.Entry == "Dispatch") && k.Status != 0 && obs.Status != k.Status {
+		ctx.Violation(ci, "c07:status:"+cell, fmt.Sprintf("handler wrote status %d, client sees %d", k.Status, obs.Status), doc)
 	}
 	if strings.HasPrefix(k.Outcome, "panic") && obs.Status != 500 && len(logged) == 0 {
 		ctx.Violation(ci, "c07:panic-status:"+cell, fmt.Sprintf("recovered panic before any output answered %d", obs.Status), doc)
